@@ -380,7 +380,8 @@ func (t *Tunnel) State() tls.ConnectionState { return t.tls.ConnectionState() }
 // Close does not wait for the peer to read the close_notify alert (crypto/tls would wait up to
 // five seconds on a synchronous pipe whose other end is busy writing).
 func (t *Tunnel) Close() {
-	t.conn.SetDeadline(time.Now().Add(50 * time.Millisecond))
-	t.tls.Close()
+	// the transport goes first: crypto/tls sets a five-second write deadline of its own for the
+	// close_notify alert, which a peer that is itself blocked writing (an answer nobody asked for) never reads
 	t.conn.Close()
+	t.tls.Close()
 }
